@@ -33,8 +33,11 @@ GetXEv == /\ Ev.t = "getx" /\ UNCHANGED seq
              THEN Fail("get answered with a value although only " \o ToString(Ev.obtained) \o " copies are within reach (the primary owner is not), RQ=" \o ToString(Ev.RQ))
              ELSE IF Ev.ret = "val" /\ ~Ev.newest THEN Fail("get returned a value that is not a newest copy")
              ELSE Ok
+\* seen = the members there are (the member under test lists exactly them), counted = what it counts for its quorum
 McqEv == /\ Ev.t = "mcq" /\ UNCHANGED seq
-         /\ IF AbsOperable(Ev.seen, Ev.MCQ)
+         /\ IF Ev.counted # Ev.seen
+            THEN Fail("the member lists " \o ToString(Ev.seen) \o " members and counts " \o ToString(Ev.counted) \o " for the member-count quorum")
+            ELSE IF AbsOperable(Ev.seen, Ev.MCQ)
             THEN IF Ev.ret = "clusterquorum" THEN Fail(Ev.cmd \o " refused although enough members are present") ELSE Ok
             ELSE IF Ev.ret # "clusterquorum" THEN Fail(Ev.cmd \o " answered " \o Ev.ret \o " below the member-count quorum")
                  ELSE IF Ev.applied THEN Fail(Ev.cmd \o " was applied below the member-count quorum")
